@@ -238,6 +238,11 @@ def senderVerdict (O : Query → m Bytes) (sid : Bytes) (rc : List Nat) (rs : Li
   let chi ← chiAll O sid msg.u
   pure (checkAll chi (sendWRows rs rc msg.u) (packedNabla rc) msg)
 
+/-- `checkAll` with the row check values `q_i = checkRow chi w_i` given (they depend on the message only through `u`);
+    used by the driver to judge many messages that share `u` (flips of x / t) without recomputing the products -/
+def checkAllQ (q : List Nat) (nabla : Nat) (msg : Round1Output) : Bool :=
+  (List.range LAMBDA_C).all fun i => q.getD i 0 == (msg.t.getD i 0 ^^^ mask (nabla.testBit i) msg.x)
+
 /-- `SoftSpokenOTSender::process(session_id, seed_ot_results{random_choices, otp_dec_keys}, message)` -/
 def senderProcess (O : Query → m Bytes) (sid : Bytes) (rc : List Nat) (decKeys : List (List Bytes))
     (msg : Round1Output) : m (Except SsError SenderExtendedOutput) := do
